@@ -57,7 +57,7 @@ func (d *vfDownstream) ServeHTTP(w http.ResponseWriter, r *http.Request) {
 
 func vfIdentOf(us []*url.URL, u *url.URL) int {
 	for id, r := range vfRep {
-		if sameURL(us[r], u) {
+		if vfSameURL(us[r], u) {
 			return id
 		}
 	}
@@ -285,4 +285,9 @@ func VerifC02History() {
 		verifAssert("pool-urls-unchanged", verifAnd(s.Host == "a:80", s.Scheme != "ftp"))
 	}
 	verifReach("end")
+}
+
+// server identity as the property defines it: (scheme, host, path)
+func vfSameURL(a, b *url.URL) bool {
+	return a.Scheme == b.Scheme && a.Host == b.Host && a.Path == b.Path
 }
